@@ -287,6 +287,10 @@ async def body(job):
                     o.debrief()
             except Exception:                               # noqa
                 pass
+    if spec.get("busy"):
+        # a step that keeps the event loop busy for `busy` units of time (synchronous work: no await): real time passes
+        # although the loop is not idle - the one thing the virtual clock does not do by itself
+        STATE["loop"]._vt += spec["busy"]
     try:
         if spec["d"] is None:
             await asyncio.Event().wait()
